@@ -37,6 +37,12 @@ type c19Conn struct {
 	handed  []byte // everything Read has returned so far
 	written []byte
 	closed  bool
+	// a peer that does not read yet: Write blocks until gate is closed
+	gate chan struct{}
+	// notify is closed as soon as notifyAt bytes have been written
+	notify   chan struct{}
+	notifyAt int
+	notified bool
 }
 
 var c19ErrClosed = errors.New("use of closed network connection")
@@ -59,12 +65,19 @@ func (c *c19Conn) Read(p []byte) (int, error) {
 
 func (c *c19Conn) Write(p []byte) (int, error) {
 	verifSlow()
+	if c.gate != nil {
+		<-c.gate
+	}
 	c.mu.Lock()
 	defer c.mu.Unlock()
 	if c.closed {
 		return 0, c19ErrClosed
 	}
 	c.written = append(c.written, p...)
+	if c.notify != nil && !c.notified && len(c.written) >= c.notifyAt {
+		c.notified = true
+		close(c.notify)
+	}
 	return len(p), nil
 }
 
@@ -136,6 +149,14 @@ func VerifC19_Relay() {
 		size := verifParam("chunk-size", 1, 2)
 		client = &c19Conn{chunks: c19Chunks("c", kc, size)}
 		server = &c19Conn{chunks: c19Chunks("s", ks, size)}
+		if kc > 0 && ks > 0 && verifParam("client-reads-late", 0, 1) == 1 {
+			// a client that sends everything before it starts to read: what
+			// the proxy writes to it is not taken (the write blocks) until
+			// the server has received all the client sent.  One direction
+			// standing still must not hold up the other.
+			server.notify, server.notifyAt = make(chan struct{}), kc*size
+			client.gate = server.notify
+		}
 	}
 	verifWitness("reached")
 	handleMessages(server, client, false, 1)
